@@ -1073,7 +1073,9 @@ class Interp:
             s, count = frontier.pop()
             # exhausted -- two loops over the same unchanged sequence run equally often
             known = s.facts.get(('itercount', source)) if source else None
-            if known is None or known == count:
+            least = s.facts.get(('itermin', source), 0) if source else 0
+            known, least = _count_from_truth(s, source, known, least)
+            if (known is None or known == count) and count >= least:
                 done = s.fork()
                 if source:
                     done.facts[('itercount', source)] = count
@@ -1090,6 +1092,11 @@ class Interp:
                 if out[0] in ('normal', 'continue'):
                     frontier.append((s3, count + 1))
                 elif out[0] == 'break':
+                    if source and ('itercount', source) not in s3.facts:
+                        # left early: the sequence has at least this many elements
+                        s3.facts[('itermin', source)] = max(
+                            s3.facts.get(('itermin', source), 0), count + 1)
+                    self._emit(s3, 'iter-stop', stmt, fr)
                     results.append((NORMAL, s3))
                 else:
                     results.append((out, s3))
@@ -1565,7 +1572,8 @@ class Interp:
                     and call.func.value.id in ('self', fn.cls.name, owner.name)):
                 return False
         elif fn.cls is not None:
-            if not self._same_self(node, fr, callee):
+            if not self._same_self(node, fr, callee) and \
+                    not self._same_receiver(node, fr, callee):
                 return False
         else:
             if fn.module is not fr.fn.module or fn.parent is not None:
@@ -1679,6 +1687,25 @@ class Interp:
             cargs = method.node.args.posonlyargs + method.node.args.args
         return bool(args) and args[0].arg == 'self' and bool(cargs) and \
             cargs[0].arg == 'self'
+
+    def _same_receiver(self, node, fr: DynFrame, callee: Callee) -> bool:
+        """``cls._helper(...)`` inside a method whose first parameter is ``cls`` too
+        (metaclass and class methods): the same object under the same name"""
+        call = node.value if isinstance(node, ast.Await) else node
+        if not (isinstance(call, ast.Call) and isinstance(call.func, ast.Attribute)
+                and isinstance(call.func.value, ast.Name)):
+            return False
+        method = fr.fn
+        while method is not None and method.cls is None and method.parent is not None:
+            method = method.parent
+        if method is None or method.cls is None or isinstance(method.node, ast.Lambda) or \
+                method.is_static or callee.fn.is_static:
+            return False
+        cargs = method.node.args.posonlyargs + method.node.args.args
+        args = callee.fn.node.args.posonlyargs + callee.fn.node.args.args
+        return bool(args) and bool(cargs) and args[0].arg == cargs[0].arg == \
+            call.func.value.id and callee.fn.cls is not None and \
+            self.p.is_subclass(method.cls.qn, callee.fn.cls.qn)
 
     def do_anext(self, stmt, types, st: St, fr: DynFrame, end: bool):
         callees, unresolved = [], False
@@ -2061,7 +2088,9 @@ class Interp:
             while frontier:
                 cur, count = frontier.pop()
                 known = cur.facts.get(('itercount', source)) if source else None
-                if known is None or known == count:
+                least = cur.facts.get(('itermin', source), 0) if source else 0
+                known, least = _count_from_truth(cur, source, known, least)
+                if (known is None or known == count) and count >= least:
                     done = cur.fork()
                     if source:
                         done.facts[('itercount', source)] = count
@@ -2153,6 +2182,9 @@ class Interp:
             for s in sts:
                 out.extend(self.eval_test(expr.target, s, fr, raised, record))
             return out
+        quantified = self._quantifier_test(expr, st, fr, raised, record)
+        if quantified is not None:
+            return quantified
         inlined = self._truth_inline(expr, st, fr, raised, record)
         if inlined is not None:
             return inlined
@@ -2224,6 +2256,76 @@ class Interp:
         return None
 
     TRUTH_DEPTH = 4
+
+    def _quantifier_test(self, expr, st: St, fr: DynFrame, raised, record):
+        """
+        ``any(c(v) for v in S)`` / ``all(...)`` in boolean context is the search loop it
+        abbreviates: one tested element per iteration, stopping at the first decisive one
+        """
+        if not (isinstance(expr, ast.Call) and isinstance(expr.func, ast.Name)
+                and expr.func.id in ('any', 'all') and len(expr.args) == 1
+                and not expr.keywords
+                and isinstance(expr.args[0], (ast.GeneratorExp, ast.ListComp))
+                and len(expr.args[0].generators) == 1
+                and not expr.args[0].generators[0].is_async):
+            return None
+        comp = expr.args[0]
+        gen = comp.generators[0]
+        decisive = expr.func.id == 'any'    # the element truth that ends the search
+        if not hasattr(gen, 'lineno'):
+            for attr in ('lineno', 'col_offset', 'end_lineno', 'end_col_offset'):
+                setattr(gen, attr, getattr(gen.iter, attr, None))
+        key, positive = self.atom_key(expr, fr)
+        results = []
+        source = _dotted(gen.iter) if isinstance(gen.iter, (ast.Name, ast.Attribute)) \
+            else None
+        for s in self.ev(gen.iter, [st], fr, raised):
+            frontier = [(s, 0)]
+            while frontier:
+                cur, count = frontier.pop()
+                known = cur.facts.get(('itercount', source)) if source else None
+                least = cur.facts.get(('itermin', source), 0) if source else 0
+                known, least = _count_from_truth(cur, source, known, least)
+                if (known is None or known == count) and count >= least:
+                    done = cur.fork()
+                    if source:
+                        done.facts[('itercount', source)] = count
+                    self._emit(done, 'iter-end', gen, fr, comprehension=comp)
+                    self._emit(done, record, expr, fr, key=key, value=not decisive,
+                               positive=positive, quantifier=True)
+                    results.append((not decisive, done))
+                if known is not None and count >= known:
+                    continue
+                if count >= self.loop_bound:
+                    self.stats['truncated'] += 1
+                    continue
+                self._emit(cur, 'iter-next', gen, fr, iter=gen.iter, comprehension=comp)
+                self._store(gen.target, None, cur, fr, comp)
+                states = [(True, cur)]
+                for cond in gen.ifs:
+                    following = []
+                    for value, state in states:
+                        if not value:
+                            following.append((False, state))
+                        else:
+                            following.extend(self.eval_test(cond, state, fr, raised))
+                    states = following
+                for passed, state in states:
+                    if not passed:
+                        frontier.append((state, count + 1))
+                        continue
+                    for truth, s2 in self.eval_test(comp.elt, state, fr, raised):
+                        if truth == decisive:
+                            if source and ('itercount', source) not in s2.facts:
+                                s2.facts[('itermin', source)] = max(
+                                    s2.facts.get(('itermin', source), 0), count + 1)
+                            self._emit(s2, 'iter-stop', gen, fr, comprehension=comp)
+                            self._emit(s2, record, expr, fr, key=key, value=decisive,
+                                       positive=positive, quantifier=True)
+                            results.append((decisive, s2))
+                        else:
+                            frontier.append((s2, count + 1))
+        return results
 
     def _truth_inline(self, expr, st: St, fr: DynFrame, raised, record):
         """
@@ -2557,6 +2659,17 @@ def _target_subexprs(target) -> list:
     if isinstance(target, ast.Starred):
         return _target_subexprs(target.value)
     return []
+
+
+def _count_from_truth(st, source, known, least):
+    """an empty sequence is iterated zero times, a non-empty one at least once"""
+    if source is not None and known is None:
+        truth = st.facts.get(('truth', source))
+        if truth is True:
+            least = max(least, 1)
+        elif truth is False:
+            known = 0
+    return known, least
 
 
 def _bound_attrs(func, fn) -> set:
